@@ -440,7 +440,7 @@ class Reaction:
         if rxn == 0 or rxn is None or not rxn.has_reaction(): return self
         rxn = self._math_compatible_reaction(rxn, copy=False)
         stoichiometry = self._stoichiometry * self.X + rxn._stoichiometry * rxn.X
-        self._stoichiometry = stoichiometry / -(stoichiometry[self._reactant_index])
+        self._stoichiometry[:] = stoichiometry / -(stoichiometry[self._reactant_index]) # In place; an item shares this data with its set
         self.X = self.X + rxn.X
         return self
     
@@ -479,7 +479,7 @@ class Reaction:
         if rxn == 0 or rxn is None or not rxn.has_reaction(): return self
         rxn = self._math_compatible_reaction(rxn, copy=False)
         stoichiometry = self._stoichiometry*self.X - rxn._stoichiometry*rxn.X
-        self._stoichiometry = stoichiometry/-(stoichiometry[self._reactant_index])
+        self._stoichiometry[:] = stoichiometry/-(stoichiometry[self._reactant_index]) # In place; an item shares this data with its set
         self.X = self.X - rxn.X
         return self
     
